@@ -873,4 +873,12 @@ def units(tier):
     from . import c12
     # "written to a connection" includes writes from several threads: frames stay contiguous only if every path to
     # the wire holds the write lock (the same lock contracts as C12, claimed here for the merged/split clause)
-    return [WriteFrame(), ReadFrame(), SizeCheck(), Segmentation(), CipherFile(), CipherSocket(), WriteSwitch()] + c12.c01_units()
+    from . import c03
+    from minecraft.networking.types import VarInt
+    us = []
+    for u, nm in ((c03.SendCanonical(VarInt, 32), 'C01.length-prefix.VarInt.send'), (c03.ReadArbitrary(VarInt), 'C01.length-prefix.VarInt.read')):
+        # the frame length and the data length are VarInts: the frame contracts above go through the VarInt contract,
+        # whose byte-level proof (C03) is claimed here as well
+        u.prop, u.name = 'C01', nm
+        us.append(u)
+    return [WriteFrame(), ReadFrame(), SizeCheck(), Segmentation(), CipherFile(), CipherSocket(), WriteSwitch()] + c12.c01_units() + us
